@@ -152,6 +152,8 @@ type c20Net struct {
 	dials   []string
 	log     []*c20Rec
 	garbled string
+
+	refusedDials int
 }
 
 type c20Addr string
@@ -171,6 +173,11 @@ type c20Conn struct {
 func (n *c20Net) dial(addr string) (net.Conn, error) {
 	n.mu.Lock()
 	defer n.mu.Unlock()
+	if addr == "" {
+		// as net.Dial: there is no host to reach behind an empty address
+		n.refusedDials++
+		return nil, &net.OpError{Op: "dial", Net: "c20", Err: &net.AddrError{Err: "missing address", Addr: addr}}
+	}
 	n.conns++
 	n.dials = append(n.dials, addr)
 	return &c20Conn{n: n, id: n.conns, addr: addr}, nil
@@ -751,11 +758,16 @@ func c20Spaces(r *vrt.R) []c20Space {
 
 	// B: complete products of Location forms (chains that leave and re-enter the trusted domain).
 	maxLen := 3
-	sp = append(sp, c20Space{fmt.Sprintf("B: every chain of 1..%d Location forms (%d forms) x uniform status {302,307,303}, POST with all six headers, Client.DoRedirects max 3", maxLen, nl),
+	len307 := vrt.Pick(r, 2, 3)
+	sp = append(sp, c20Space{fmt.Sprintf("B: every chain of 1..%d Location forms (%d forms) with uniform status 302 or 303, and of 1..%d forms with 307; POST with all six headers, Client.DoRedirects max 3", maxLen, nl, len307),
 		func(yield func(*c20Case) bool) {
 			var cs c20Case
 			for _, st := range []int{302, 307, 303} {
-				for n := 1; n <= maxLen; n++ {
+				top := maxLen
+				if st == 307 {
+					top = len307
+				}
+				for n := 1; n <= top; n++ {
 					d := make([]int, n)
 					for i := range d {
 						d[i] = nl
